@@ -18,6 +18,7 @@ import (
 	"github.com/AdguardTeam/golibs/netutil"
 
 	"verif/engine/enum"
+	"verif/engine/gen"
 	"verif/engine/runlib"
 )
 
@@ -468,6 +469,56 @@ func main() {
 				c.SampleEvery(int64(700_001+90_007*c.Shard), func() any { return map[string]any{"family": fam, "in": enum.Hex(line)} })
 			}
 		}
+
+		// (c) lines with many names (past any inline array of names): 1..40
+		// valid names, with one bad name at every position for the lengths around
+		// 8, 16 and 32, separated by one of two separators.
+		shl := sh()
+		long := func(line string) {
+			if shl.Mine() {
+				if evalLine(c, "many-names", line) {
+					c.NontrivialInjective()
+				}
+			}
+		}
+
+		for n := 1; n <= 40; n++ {
+			for _, sep := range []string{" ", "\t "} {
+				var names []string
+				for i := 0; i < n; i++ {
+					names = append(names, fmt.Sprintf("n%02d.example", i))
+				}
+
+				long("1.2.3.4" + sep + strings.Join(names, sep))
+				long("::1" + sep + strings.Join(names, sep) + " # " + names[0])
+				if n == 7 || n == 8 || n == 9 || (n >= 15 && n <= 18) || (n >= 31 && n <= 34) {
+					for bad := 0; bad < n; bad++ {
+						with := slices.Clone(names)
+						with[bad] = "bad..name"
+						long("1.2.3.4" + sep + strings.Join(with, sep))
+					}
+				}
+			}
+		}
+
+		// (d) long names: every boundary name of the C03 families (labels of
+		// 63 / 64 bytes, totals of 253 / 254 bytes in the raw and in the ToASCII
+		// form) as the only name, as the first and as the last of three.
+		gen.C03Names(!c.Quick(), func(_, name string) {
+			if strings.ContainsAny(name, " \t#") || name == "" {
+				return
+			}
+
+			if !shl.Mine() {
+				return
+			}
+
+			for _, line := range []string{"1.2.3.4 " + name, "1.2.3.4 " + name + " b.example c.example", "::1 a.example b.example " + name} {
+				if evalLine(c, "long-names", line) {
+					c.NontrivialKey(line)
+				}
+			}
+		})
 
 		// Quick: the full product up to 3 fields; 4-field lines with every
 		// separator vector but only the (lead, tail) pairs with an empty
